@@ -179,11 +179,13 @@ Prepare(req) ==
                      trades |-> m.trades, edge |-> m.edge])
     /\ UNCHANGED <<h, track, clk>>
 
+\* the previewed object is executed; it may be submitted again later (a standing request re-submitted after prices moved):
+\* what was computed for an earlier execution plays no role
 Execute(dt) ==
     /\ "prepare" \in Ops
     /\ prep # NoPrep
     /\ DoRebalance(prep, dt, "rebalance", TRUE)
-    /\ prep' = NoPrep
+    /\ prep' = IF "resubmit" \in Ops THEN prep ELSE NoPrep
 
 Accrue(dt, accrue) ==
     /\ (IF accrue THEN "accrue" ELSE "query") \in Ops
